@@ -34,18 +34,12 @@ def install_bitstream_limits():
 
     vc2 = sys.modules["vc2_conformance.bitstream.vc2"]
     L = vc2run.LIMITS
-    real_scp = vc2.set_coding_parameters
-
-    def set_coding_parameters(state, video_parameters):
-        real_scp(state, video_parameters)
-        lw, lh = state["luma_width"], state["luma_height"]
-        if lw * lh > L["max_luma_area"] or lw > L["max_dim"] or lh > L["max_dim"]:
-            raise vc2run.OutOfScope("picture")
-
-    vc2.set_coding_parameters = set_coding_parameters
     real_sp = vc2.slice_parameters
 
     def slice_parameters(serdes, state):
+        lw, lh = state["luma_width"], state["luma_height"]
+        if lw * lh > L["max_luma_area"] or lw > L["max_dim"] or lh > L["max_dim"]:
+            raise vc2run.OutOfScope("picture")
         if state["dwt_depth"] + state["dwt_depth_ho"] > L["max_dwt_total"]:
             raise vc2run.OutOfScope("dwt")
         r = real_sp(serdes, state)
